@@ -1,0 +1,18 @@
+//go:build verif
+
+package statsd
+
+import (
+	"context"
+
+	"github.com/atlassian/gostatsd"
+	"github.com/atlassian/gostatsd/internal/lexer"
+)
+
+// VerifHandleDatagram runs the parser's per-datagram routine (handleDatagram) on msg with a lexer on the
+// parser's own metric pool and returns the metrics exactly as the routine hands them back, before they
+// are folded into a MetricMap (which sorts their tags).
+func (dp *DatagramParser) VerifHandleDatagram(ctx context.Context, now gostatsd.Nanotime, ip gostatsd.Source, msg []byte) ([]*gostatsd.Metric, uint64, uint64) {
+	l := &lexer.Lexer{MetricPool: dp.metricPool}
+	return dp.handleDatagram(ctx, l, now, ip, msg)
+}
